@@ -174,7 +174,7 @@ func c15Run(r *core.Run) {
 	}
 	// Quote provider behaviours.
 	for _, supported := range []bool{true, false} {
-		for dk := 0; dk < 3; dk++ {
+		for dk := 0; dk < 6; dk++ {
 			for _, withErr := range []bool{false, true} {
 				name := fmt.Sprintf("provider:supported=%v,data=%d,err=%v", supported, dk, withErr)
 				if !r.Item(name) {
@@ -274,8 +274,9 @@ func c15Judge(r *core.Run, name string, s *c15Script, rd [64]byte, stName, olNam
 			(*kept)[int(s.outLen)%4] = c15Kept{name: name, data: data, want: append([]byte(nil), dev.wrote[:s.outLen]...)}
 			r.Probe("earlier_results_rechecked_after_later_calls")
 		}
-		if s.outLen == uint32(len(s.quoteRaw)) && s.bufKind == 0 {
-			// the parsed form equals parsing the raw form
+		{
+			// the parsed form equals parsing the raw form — whatever the device wrote: the exact quote, the
+			// quote followed by what else the buffer held (OutLen larger than the quote), a cut quote, garbage
 			dev2 := &c15Device{s: s}
 			var q any
 			o2 := core.Call(func() error {
@@ -293,6 +294,9 @@ func c15Judge(r *core.Run, name string, s *c15Script, rd [64]byte, stName, olNam
 					r.Violate("C15:getquote-differs", "%s: GetQuote message differs from QuoteToProto(GetRawQuote)", name)
 				}
 				r.Probe("getquote_equals_parse")
+				if int(s.outLen) > len(s.quoteRaw) && s.bufKind == 0 {
+					r.Probe("getquote_with_bytes_behind_the_quote")
+				}
 			}
 		}
 		return
@@ -369,6 +373,12 @@ func c15JudgeProvider(r *core.Run, name string, supported bool, dk int, withErr 
 		p.data = []byte{}
 	case 2:
 		p.data = nil
+	case 3: // the quote followed by zero padding
+		p.data = append(append([]byte(nil), quoteRaw...), make([]byte, 1+int(rd[0])%200)...)
+	case 4: // the quote followed by other bytes
+		p.data = append(append([]byte(nil), quoteRaw...), rd[:1+int(rd[1])%60]...)
+	case 5: // a cut quote
+		p.data = append([]byte(nil), quoteRaw[:len(quoteRaw)*2/3]...)
 	}
 	if withErr {
 		p.err = errors.New("scripted: provider error")
@@ -394,6 +404,35 @@ func c15JudgeProvider(r *core.Run, name string, supported bool, dk int, withErr 
 			r.Violate("C15:provider-not-verbatim", "%s: provider returned (%d bytes, %v); client returned (%d bytes, %v)", name, len(p.data), p.err, len(data), out.Err)
 		}
 		r.Fault("provider_error", withErr)
+		// the parsed form equals parsing the raw form
+		p2 := &c15Provider{supported: true, data: p.data, err: p.err}
+		var q any
+		o2 := core.Call(func() error {
+			var err error
+			q, err = client.GetQuote(p2, rd)
+			return err
+		})
+		if o2.Panicked {
+			r.Violate("C15:provider-panic", "%s: GetQuote panicked: %s", name, o2.PanicVal)
+			return
+		}
+		if withErr {
+			if o2.Err == nil {
+				r.Violate("C15:getquote-differs", "%s: the provider failed but GetQuote returned no error", name)
+			}
+			return
+		}
+		want, werr := abi.QuoteToProto(p.data)
+		if (o2.Err == nil) != (werr == nil) {
+			r.Violate("C15:getquote-differs", "%s: GetQuote through the provider (%s) disagrees with parsing the provider's bytes (%v)", name, o2.ErrText(), werr)
+		} else if werr == nil {
+			qm, ok1 := q.(proto.Message)
+			wm, ok2 := want.(proto.Message)
+			if !ok1 || !ok2 || !proto.Equal(qm, wm) {
+				r.Violate("C15:getquote-differs", "%s: GetQuote through the provider differs from QuoteToProto of the provider's bytes (%d bytes, quote is %d)", name, len(p.data), len(quoteRaw))
+			}
+			r.Probe("provider_getquote_equals_parse")
+		}
 		return
 	}
 	// unsupported: the device path is tried.  Observed through the device-path flag:
@@ -443,8 +482,8 @@ func init() {
 		ID:    "C15",
 		Level: "fault_enumeration",
 		Rule: "per run a seeded device world (TD report, generated quote with tape-chosen auth-data length/extra bytes, garbage buffer, arbitrary status) and one (report-ioctl outcome, report-data kind) pair; inside the run the complete grid " +
-			"quote-ioctl{error,result 0,1,7,8,9} x status{0,in-flight,error,unavailable,arbitrary} x OutLen{0,1,exact,buffer,buffer+1,2^32-1} x buffer{quote,garbage,TD report left in place} plus all 12 provider behaviours; " +
-			"18 runs cover report-ioctl{error,0,1,7,8,9} x report-data{zeros,ones,random}. distinct = (report ok, quote outcome, status, OutLen, buffer kind, verdict); all but the single all-good cell carry an injected device fault",
+			"quote-ioctl{error,result 0,1,7,8,9} x status{0,in-flight,error,unavailable,arbitrary} x OutLen{0,1,exact,buffer,buffer+1,2^32-1} x buffer{quote,garbage,TD report left in place} plus all 24 provider behaviours (supported or not x bytes{quote, empty, nil, quote+zero padding, quote+other bytes, cut quote} x error or not); for every good device outcome and every supported provider GetQuote is compared with abi.QuoteToProto of the raw result; " +
+			"30 runs cover report-ioctl{error,0,1,7,8,9} x report-data{zeros,ones,random}. distinct = (report ok, quote outcome, status, OutLen, buffer kind, verdict); all but the single all-good cell carry an injected device fault",
 		Exhaustive: true,
 		Assumptions: []string{
 			"client.LinuxDevice (real ioctl) and LinuxConfigFsQuoteProvider are the far side of the seam and are not exercised, except that the fallback path opens a non-existent path and a regular file",
@@ -458,7 +497,7 @@ func init() {
 			return 30
 		},
 		Run:         c15Run,
-		MustProbe:   []string{"good_outcome", "earlier_results_rechecked_after_later_calls", "getquote_equals_parse", "fallback_to_device_path", "provider_support_toggles", "status0_bad_outlen_0", "status0_bad_outlen_buffer+1"},
+		MustProbe:   []string{"good_outcome", "earlier_results_rechecked_after_later_calls", "getquote_equals_parse", "getquote_with_bytes_behind_the_quote", "provider_getquote_equals_parse", "fallback_to_device_path", "provider_support_toggles", "status0_bad_outlen_0", "status0_bad_outlen_buffer+1"},
 		SimTimeNote: "no clock in this property",
 	})
 }
